@@ -3,11 +3,28 @@ Assembled from the no-ub theorems of the four API models (tracks / crates x
 schema 1.x / 2.x) and an adversarial-call search on the sanitizer harness."""
 from props import _combine
 
-_combine.install(globals(), "C15", ["C15_tracks_v1", "C15_tracks_v2", "C15_crates_v1", "C15_crates_v2", "C15_search"], dict(
-    text="",
-    note="see design/C15.md",
-    technique="Lean 4 no-ub theorems over the executable API models (every modelled undefined-behaviour source is an "
-              "explicit `ub` outcome) + sanitizer-instrumented differential replay with adversarial arguments",
+_combine.install(globals(), "C15", ["C15_sites", "C15_tracks_v1", "C15_tracks_v2", "C15_crates_v1", "C15_crates_v2", "C15_tableapi", "C15_search"], dict(
+    text="Partial: theorems `forall reachable / invariant-satisfying state, forall public call with ANY argument values, "
+         "outcome != ub` over the executable API models (tracks / crates x schema 1.x / 2.x, 2.x table API), in which every "
+         "undefined-behaviour source of the library's own code (vector index, empty-optional dereference, signed overflow, "
+         "double->int cast range, division by zero, fixed-size buffer, missing chain tail, unbounded walk / recursion / "
+         "recursive view) is an explicit `ub` outcome behind the guard the C++ has; the guards of the track, crate and "
+         "track_utils call paths are REGENERATED from the typed AST of the source on every run (Gen/C15Guards.lean, "
+         "Gen/TrackUtilsGen.lean) and the theorems `guarded dispatcher = model dispatcher, never ub` are re-proved against "
+         "them; a complete site inventory (191 sites) fails closed on unconfirmed sites.  Stale handles: invalid along "
+         "every later history on 2.x (AUTOINCREMENT), on 1.x until the id is reissued (partial + registered "
+         "counterexample = the recorded finding).  Tied on every run by adversarial scripts executed on the sanitizer "
+         "harness and on the guarded models (outcome classes incl. `ub` must agree) with the direct oracle `no call ends "
+         "in ub`.",
+    note="Limits: memory safety of SQLite, sqlite_modern_cpp, libstdc++ internals (incl. std::chrono conversions) and zlib "
+         "under these calls is observed by ASan / UBSan / _GLIBCXX_ASSERTIONS during the tie only; the blob codecs are C05's "
+         "theorems; uuid / version_name / directory / verify / crate::db and handle copy / assign / move / destroy have no "
+         "model content (tie only); 74 of the 191 sites are covered by hand-mirrored guards of the package models (textual "
+         "drift fails closed), 6 by the sanitizers only; reachable = histories from the empty library (2.x crates: any state "
+         "satisfying PlInv).  See design/C15.md and design/C15_sites.md.",
+    technique="Lean 4 no-ub theorems over executable API models whose guards are regenerated from clang's typed AST "
+              "(translator + fail-closed site inventory) + sanitizer-instrumented differential replay with adversarial "
+              "arguments",
     ref="6/C15"))
 # a claimed check needs at least one theorem-carrying part; the search alone is not a proof
 REGISTERED = bool(THEOREMS)
